@@ -564,6 +564,8 @@ class VirtRig:
                 VirtRig.hangs_seen += 1
                 if VirtRig.hangs_seen >= 8:
                     VirtRig.WATCHDOG_S = 1.0        # many hangs already: do not spend minutes on the rest
+                if VirtRig.hangs_seen >= 40:
+                    VirtRig.WATCHDOG_S = 0.4        # (an execution normally takes about ten milliseconds)
                 outcome = {'e': 'outcome', 'kind': 'hang', 'exc': 'RigHang', 'cause': '', 'keys': [], 'vals': []}
             except BaseException as ex:   # noqa
                 name, cause = D.exc_info(ex)
